@@ -68,9 +68,11 @@ ASSUMPTIONS = [
 
 CLASSES = ["random_cluster", "late_suitors", "candidate_forest", "line_mid_start", "prefix_cut", "prefix_reject", "prefix_first", "heads_compete", "suffix_reject_fork",
            "suffix_after_cut", "both_sides_nocut", "both_sides_cut", "both_sides_reject", "bend_back_after_cut", "tail_cut", "tail_cut_after_join", "tail_cut_with_join", "same_target_single",
-           "same_chain_bridge", "closed_ring", "min_distance_shell", "tomo_overlap", "odd_ids_index", "zero_displacement", "tiny", "lattice_ties", "second_call_moved_exits"]
+           "same_chain_bridge", "closed_ring", "min_distance_shell", "tomo_overlap", "odd_ids_index", "zero_displacement", "tiny", "lattice_ties", "second_call_moved_exits",
+           "bound_slivers", "same_chain_exact_tie"]
 
 CLAUSES = ["partition", "tomogram", "orders", "link_range", "link_recorded"]
+ID_KINDS = ["seq", "big100k", "shuffled_gaps", "big17M", "big2p24", "big2p31", "near2p53"]
 
 BR_NN = {"nn_empty_radius": ("return -1, []", 0), "nn_none_active": ("return -1, []", 1), "nn_min_filter": "rp_idx = rp_idx[rp_dist >",
          "nn_none_after_min": ("return -1, []", 2), "nn_found": "return rp_idx[0], rp_dist[0]"}
@@ -121,7 +123,7 @@ def _applicable(A):
         return False
     if not (E["index_unique"] and X["index_unique"]):
         return False
-    return orc.boundary_clear(E, X, dmin, dmax, 1e-9)
+    return orc.boundary_clear(E, X, dmin, dmax)
 
 
 def _snapshot(A):
@@ -729,15 +731,19 @@ def _assemble(rng, parts, ntomo, D, overlap):
 def _tables(rng, E, X, tomo_idx, pres):
     n = len(E)
     tl = np.sort(rng.choice(np.arange(1, 300), size=int(tomo_idx.max()) + 1, replace=False)).astype(float)
+    if pres.get("tomo_ids") in ("adjacent_1e5", "adjacent_2p24"):
+        tl = {"adjacent_1e5": 100000.0 * float(rng.integers(1, 9)), "adjacent_2p24": 2.0 ** 24}[pres["tomo_ids"]] + 1.0 + np.arange(len(tl), dtype=float)
     rng.shuffle(tl)
     de = gens.motl_table(rng, n, tomos=1)
     dx = gens.motl_table(rng, n, tomos=1)
     ids = np.arange(1, n + 1, dtype=float)
     if pres["ids"] == "shuffled_gaps":
         ids = rng.permutation(rng.choice(np.arange(1, 40 * n + 50), n, replace=False)).astype(float)
-    elif pres["ids"] in ("big100k", "big17M"):
-        # the common tomogram*100000 + n numbering / very large ids: consecutive numbers, in row order or shuffled over the rows
-        base_id = {"big100k": 100000.0 * float(rng.integers(1, 40)), "big17M": 17000000.0}[pres["ids"]]
+    elif pres["ids"] in ("big100k", "big17M", "big2p24", "big2p31", "near2p53"):
+        # the common tomogram*100000 + n numbering / ids around float32 and int32 limits and just below 2**53: consecutive numbers (adjacent
+        # integers that a tolerant comparison or a narrower dtype would merge), in row order or shuffled over the rows
+        base_id = {"big100k": 100000.0 * float(rng.integers(1, 40)), "big17M": 17000000.0, "big2p24": 2.0 ** 24 - float(rng.integers(0, 3)),
+                   "big2p31": 2.0 ** 31 - float(rng.integers(0, 3)), "near2p53": 2.0 ** 53 - 70.0}[pres["ids"]]
         ids = base_id + np.arange(1, n + 1, dtype=float)
         if rng.random() < 0.5:
             ids = rng.permutation(ids)
@@ -764,7 +770,7 @@ def _tables(rng, E, X, tomo_idx, pres):
     return de, dx
 
 
-def _second_exit(rng, dx, Xpos, tomo, D, kind, pres):
+def _second_exit(rng, dx, Xpos, tomo, D, kind, pres, is_em=None):
     """an exit list for a second call with the SAME entry list: exit sites handed round inside each tomogram ('permuted'), or half of them
     moved away by 3..6 max_distance ('moved'); every former exit position then lies where the new list has another (or no) exit."""
     X2 = Xpos.copy()
@@ -785,8 +791,7 @@ def _second_exit(rng, dx, Xpos, tomo, D, kind, pres):
     base = np.round(X2)
     dx2[["x", "y", "z"]] = base
     dx2[["shift_x", "shift_y", "shift_z"]] = X2 - base
-    if pres["form"] == "em":
-        keep = {c: dx2[c].dtype for c in dx2.columns}
+    if (pres["form"] == "em") if is_em is None else is_em:
         dx2 = dx2.astype(np.float32).astype(np.float64)
         if pres.get("int_ids"):
             dx2["subtomo_id"] = dx2["subtomo_id"].astype(np.int64)
@@ -796,6 +801,9 @@ def _second_exit(rng, dx, Xpos, tomo, D, kind, pres):
 
 def _index(rng, df, kind):
     n = len(df)
+    if kind == "strings":
+        df.index = ["p%03d" % k for k in rng.permutation(n)]
+        return df
     if kind == "permuted":
         df.index = rng.permutation(n)
     elif kind == "gaps":
@@ -894,6 +902,169 @@ def _lattice_case(rng, v):
     return (E[perm] + shift) * scale, (X[perm] + shift) * scale, np.asarray(T).reshape(-1)[perm], float(D * scale), float(m * scale), tags
 
 
+SLIVERS = [1e-12, 1e-9, 3e-8, 8e-8, 1.1e-7, 1e-6]
+SLIVER_KINDS = ["max+", "min-", "max+", "max-", "max+", "min+", "max+", "min-", "max-", "max+"]
+
+
+def _sliver_case(rng, v):
+    """stations with the NEAREST admissible-looking candidate planted a relative hair beyond / inside a bound: at max_distance*(1+d) and
+    min_distance*(1-d) (a link there violates link_range), at max_distance*(1-d) and min_distance*(1+d) (a link there is fine), for
+    d in SLIVERS, dyadic and non-dyadic bounds, axis-aligned and oblique offsets; decided by comparing float64 distances (no tie involved).
+    -> E, X, tomo_idx, D, m, tags, plants [(row of source, row of candidate, kind, d)]"""
+    D = float([10.0, 12.5, 7.3, 100.0 / 3.0, 0.7, 21.0, 4.1, 57.29][v % 8])
+    m = D * float([0.3, 0.41, 0.0, 0.137, 0.25, 1.0 / 3.0][(v // 2) % 6])
+    nst = int(rng.integers(5, 10))
+    ntomo = int(rng.integers(1, 4))
+    E, X, T, tags, plants = [], [], [], [], []
+    axes = np.eye(3)
+    for st in range(nst):
+        kind = SLIVER_KINDS[(v * 3 + st) % len(SLIVER_KINDS)]
+        if m == 0.0 and kind.startswith("min"):
+            kind = "max+" if st % 2 else "max-"
+        dl = SLIVERS[(v + st * 5 + st // 6) % len(SLIVERS)]
+        org = np.array([st * 14.0 * D, float(rng.integers(-3, 4)) * D, float(rng.integers(-3, 4)) * D]) + rng.uniform(50, 400, 3).round(int(rng.integers(0, 4)))
+        a1, a2 = (int(q) for q in rng.choice(3, 2, replace=False))
+        x_s = org
+        e_s = x_s - (3.0 * D + 1.0) * axes[a1] * float(rng.choice([-1, 1]))
+        u = axes[int(rng.integers(0, 3))] * float(rng.choice([-1, 1])) if rng.random() < 0.5 else _rand_unit(rng)
+        dist = {"max+": D * (1 + dl), "max-": D * (1 - dl), "min-": m * (1 - dl), "min+": m * (1 + dl)}[kind]
+        block = [(e_s, x_s)]
+        e_c = x_s + dist * u
+        cands = [(e_c, e_c + 4.0 * D * axes[a2] * float(rng.choice([-1, 1])))]
+        if kind == "min-" and rng.random() < 0.5:
+            w = _perp(rng, u)
+            e_f = x_s + (m + (D - m) * float(rng.uniform(0.2, 0.9))) * w          # an admissible, farther candidate
+            cands.append((e_f, e_f + 5.0 * D * w))
+        if kind == "max+" and m > 0 and rng.random() < 0.3:
+            w = _perp(rng, u)
+            e_f = x_s + m * float(rng.uniform(0.2, 0.8)) * w                      # a decoy inside min_distance
+            cands.append((e_f, e_f + 5.0 * D * w))
+        order = (v + st) % 2                      # source first (tracing / suffix query) or candidates first (prefix query)
+        rows0 = len(E)
+        seq = block + cands if order == 0 else cands + block
+        for e_, x_ in seq:
+            E.append(e_)
+            X.append(x_)
+            T.append(st % ntomo)
+        src = rows0 if order == 0 else rows0 + len(cands)
+        cnd = rows0 + 1 if order == 0 else rows0
+        plants.append((src, cnd, kind, dl))
+        tags.append("%s%g/o%d" % (kind, dl, order))
+    E, X, T = np.array(E), np.array(X), np.array(T, dtype=int)
+    _, T = np.unique(T, return_inverse=True)
+    return E, X, np.asarray(T).reshape(-1), D, m, tags, plants
+
+
+_SYMS = None
+
+
+def _lattice_symmetries():
+    global _SYMS
+    if _SYMS is None:
+        import itertools
+        _SYMS = [np.array([[sg[r] if c == pm[r] else 0 for c in range(3)] for r in range(3)]) for pm in itertools.permutations(range(3))
+                 for sg in itertools.product([1, -1], repeat=3)]
+    return _SYMS
+
+
+def _tie_gadget(rng, D, m, kind, h, q, t):
+    """integer coordinates: b_0..b_h -> Y -> tail traced first, L cuts in front of Y (b_h becomes a chain end), then the chain n (q members)
+    fits AFTER b_h (exit b_h -> entry n: a) and BEFORE b_0 (exit n -> entry b_0: a2) - both ends on the SAME chain.  kind 'equal': a == a2
+    exactly (two integer vectors of one shell), 'suffix_closer' / 'prefix_closer': unequal controls.  -> (E, X) int arrays in row order, or None"""
+    B = 2 * D + 1
+    E, X, edges = [], [], set()
+    x = 0
+    for k in range(h + 1):
+        E.append([x, 0, 0]); X.append([x + B, 0, 0])
+        if k:
+            edges.add((k - 1, k))
+        x = x + B + int(rng.integers(m + 2, D - 1)) if k < h else x + B
+    P = h
+    d1 = int(rng.integers(m + 3, D - 3))
+    a = int(rng.integers(d1 + 1, D + 1))
+    if kind == "equal":
+        a2 = a
+    elif kind == "suffix_closer":
+        if a >= D:
+            a = D - 1
+        a2 = int(rng.integers(a + 1, D + 1))
+    else:
+        a2 = int(rng.integers(m + 1, a))
+    if not (d1 < a <= D and m < a2 <= D):
+        return None
+    x_y = x + d1
+    for k in range(1 + t):
+        E.append([x_y, 0, 0]); X.append([x_y + B, 0, 0])
+        edges.add((len(E) - 2, len(E) - 1))
+        x_y = x_y + B + int(rng.integers(m + 2, D - 1))
+    Y = h + 1
+    d2 = int(rng.integers(m + 1, d1))
+    E.append([E[Y][0], d2 + B, 0]); X.append([E[Y][0], d2, 0])
+    edges.add((len(E) - 1, Y))
+    s1, s2 = _shell(a * a), _shell(a2 * a2)
+    v1, v2 = s1[int(rng.integers(0, len(s1)))], s2[int(rng.integers(0, len(s2)))]
+    e_n = np.array(X[P]) + v1
+    x_n = np.array(E[0]) + v2
+    if q == 1:
+        E.append(e_n.tolist()); X.append(x_n.tolist())
+        edges.add((P, len(E) - 1)); edges.add((len(E) - 1, 0))
+    else:
+        w = np.array([0, 0, 1]) * int(rng.choice([-1, 1]))
+        g = int(rng.integers(m + 1, D))
+        x1 = e_n + w * B
+        E.append(e_n.tolist()); X.append(x1.tolist())
+        E.append((x1 + w * g).tolist()); X.append(x_n.tolist())
+        edges.add((P, len(E) - 2)); edges.add((len(E) - 2, len(E) - 1)); edges.add((len(E) - 1, 0))
+    E, X = np.array(E, dtype=float), np.array(X, dtype=float)
+    d2m = ((X[:, None, :] - E[None, :, :]) ** 2).sum(axis=2)
+    np.fill_diagonal(d2m, np.inf)
+    got = {(int(i), int(j)) for i, j in np.argwhere((d2m > m * m) & (d2m <= D * D))}
+    if got != edges or (m == 0 and (d2m == 0).any()):
+        return None
+    return E, X
+
+
+def _tie_case(rng, v):
+    """2..4 tie gadgets (random lattice symmetry, integer translation, tomograms round robin), optionally lattice stations, power-of-two scale"""
+    D = int(rng.integers(9, 21))
+    m = int([0, 2, 0, 1, 3, 0][v % 6])
+    ng = int(rng.integers(2, 5))
+    ntomo = int(rng.integers(1, 4))
+    E, X, T, tags = [], [], [], []
+    for g in range(ng):
+        kind = ["equal", "equal", "equal", "suffix_closer", "equal", "prefix_closer"][(v + g) % 6]
+        h, q, t = (v + g) % 3, 1 + ((v // 3 + g) % 2), int(rng.integers(0, 2))
+        got = None
+        for _ in range(60):
+            got = _tie_gadget(rng, D, m, kind, h, q, t)
+            if got is not None:
+                break
+        if got is None:
+            continue
+        M = _lattice_symmetries()[int(rng.integers(0, 48))]
+        off = np.array([g * 40 * D, int(rng.integers(-5, 6)) * D, int(rng.integers(-5, 6)) * D])
+        for e_, x_ in zip(got[0] @ M.T + off, got[1] @ M.T + off):
+            E.append(e_); X.append(x_); T.append(g % ntomo)
+        tags.append("tie-%s/h%dq%dt%d" % (kind, h, q, t))
+    nl = int(rng.integers(0, 5))
+    for k in range(nl):
+        p0 = np.array([-(k + 2) * 9 * D, int(rng.integers(-3, 4)) * 7 * D, 11 * D])
+        E.append(p0.astype(float)); X.append((p0 + np.array([0, 0, 3 * D + k])).astype(float)); T.append(int(rng.integers(0, ntomo)))
+    if nl:
+        tags.append("lone%d" % nl)
+    E, X, T = np.array(E, dtype=float), np.array(X, dtype=float), np.array(T, dtype=int)
+    if len(E) == 0:
+        return None
+    E, X, T = E[:60], X[:60], T[:60]
+    _, T = np.unique(T, return_inverse=True)
+    T = np.asarray(T).reshape(-1)
+    # rows: blocks of one tomogram keep their order; tomogram blocks interleaved or not
+    perm = np.concatenate([np.flatnonzero(T == tt) for tt in rng.permutation(int(T.max()) + 1)]) if rng.random() < 0.5 else np.arange(len(E))
+    scale = float([1.0, 0.5, 1.0, 0.125, 2.0, 1.0][(v // 6 + int(rng.integers(0, 6))) % 6])
+    shift = rng.integers(20, 300, 3).astype(float)
+    return (E[perm] + shift) * scale, (X[perm] + shift) * scale, T[perm], float(D * scale), float(m * scale), tags
+
+
 def gen(ctx, i, cls):
     rng = ctx.rng(i)
     v = i // len(CLASSES)
@@ -906,7 +1077,21 @@ def gen(ctx, i, cls):
         ntomo = int(rng.integers(1, 4))
         budget = int(rng.integers(8, 61)) if (big or rng.random() < 0.4) else int(rng.integers(4, 30))
         parts, tags, designed, overlap = [], [], True, False
-        lat = _lattice_case(rng, v) if cls == "lattice_ties" else None
+        lat, plants = None, None
+        if cls == "lattice_ties":
+            lat = _lattice_case(rng, v)
+        elif cls == "bound_slivers":
+            sl = _sliver_case(rng, v)
+            lat, plants = sl[:6], sl[6]
+        elif cls == "same_chain_exact_tie":
+            lat = _tie_case(rng, v)
+            if lat is None:
+                continue
+        # block-boundary particle counts (2**k - 1, 2**k, 2**k + 1, KD-tree leaf size 40 +- 1, the largest count of the quantifier) in ONE tomogram
+        block_n = None
+        if cls in ("random_cluster", "late_suitors", "candidate_forest", "zero_displacement") and v % 2 == 0:
+            block_n = [60, 33, 32, 31, 41, 40, 59, 17, 16, 15, 39, 9, 8, 7, 58][(v // 2) % 15]
+            ntomo, budget = 1, block_n
         if cls in GADGETS:
             names = [cls]
         elif cls == "odd_ids_index":
@@ -1036,23 +1221,39 @@ def gen(ctx, i, cls):
             E, X, tomo_idx = _assemble(rng, parts, ntomo, D, overlap)
         # presentation
         odd = cls == "odd_ids_index"
-        pres = {"form": str(rng.choice(["df", "motl", "em", "mixed", "em_df"], p=[0.35, 0.35, 0.1, 0.15, 0.05])) if not odd else str(rng.choice(["motl", "mixed", "df"], p=[0.6, 0.25, 0.15])),
-                "ids": ["seq", "big100k", "shuffled_gaps", "big17M"][(v + CLASSES.index(cls)) % 4] if not odd else ["shuffled_gaps", "big100k", "big17M"][v % 3],
+        ci = CLASSES.index(cls)
+        form = ["motl", "df", "motl", "mixed", "em", "motl", "df", "em_df"][(v + 3 * ci) % 8] if not odd else ["motl", "mixed", "motl", "df"][v % 4]
+        ipair = [("range", "permuted"), ("gaps", "reversed"), ("permuted", "gaps"), ("reversed", "range"), ("range", "range"), ("permuted", "permuted"),
+                 ("strings", "range"), ("gaps", "gaps")][(v // 2 + ci) % 8]
+        if odd and ipair == ("range", "range"):
+            ipair = ("permuted", "gaps")
+        pres = {"form": form,
+                "ids": ID_KINDS[(v + ci) % len(ID_KINDS)] if not odd else ["shuffled_gaps", "big100k", "big17M", "big2p31"][v % 4],
+                "tomo_ids": ["small", "adjacent_1e5", "small", "adjacent_2p24"][(v // 3 + ci) % 4],
                 "int_ids": bool(rng.random() < 0.3),
-                "index_e": str(rng.choice(["permuted", "gaps", "reversed"])) if (odd or rng.random() < 0.3) else "range",
-                "index_x": str(rng.choice(["permuted", "gaps", "reversed"])) if (odd or rng.random() < 0.3) else "range",
+                "index_e": ipair[0], "index_x": ipair[1],
                 "dirty": bool(rng.random() < 0.4), "kw": bool(rng.random() < 0.5), "min_default": bool(m == 0.0 and rng.random() < 0.5),
                 "int_min": bool(m == 0.0 and rng.random() < 0.3)}
-        if pres["ids"] == "big17M" and pres["form"] in ("em", "em_df"):
-            pres["form"] = "motl" if rng.random() < 0.5 else "df"      # ids above 2**24 are not float32-exact: no EM-file presentation
+        if pres["form"] in ("em", "em_df") and (pres["ids"] in ("big17M", "big2p24", "big2p31", "near2p53") or pres["tomo_ids"] == "adjacent_2p24"):
+            pres["form"] = "motl" if rng.random() < 0.5 else "df"      # numbers above 2**24 are not float32-exact: no EM-file presentation
         if pres["form"] in ("em", "em_df"):
             pres["int_ids"] = False
         de, dx = _tables(rng, E, X, tomo_idx, pres)
         Et = {"sub": de["subtomo_id"].to_numpy(float), "tomo": de["tomo_id"].to_numpy(float), "pos": gens.positions(de), "n": len(de)}
         Xt = {"sub": dx["subtomo_id"].to_numpy(float), "tomo": dx["tomo_id"].to_numpy(float), "pos": gens.positions(dx), "n": len(dx)}
-        if not orc.boundary_clear(Et, Xt, m, D, 1e-6):
+        if not orc.boundary_clear(Et, Xt, m, D, None if cls == "bound_slivers" else 1e-6):
             continue
+        if m == 0.0 and bool((orc.sq_matrix(Et, Xt) == 0).any()):
+            continue                     # exit site exactly ON another entry site with min_distance 0: reported finding, kept out pending the lead's ruling
         cand = orc.candidates(Et, Xt, m, D)
+        if plants is not None:
+            dmx = orc.link_matrix(Et, Xt)
+            okp = True
+            for (a_, b_, kd, dl) in plants:
+                dd = float(dmx[a_, b_])
+                okp &= {"max+": dd > D, "max-": m < dd <= D, "min-": dd <= m, "min+": m < dd <= D}[kd]
+            if not okp:
+                continue
         if designed:
             # the assembled case has exactly the intended candidate links (rigid motions and float splitting keep them)
             want = 0
@@ -1065,26 +1266,35 @@ def gen(ctx, i, cls):
                 continue
         second = None
         if cls == "second_call_moved_exits" or v % 5 == 3:
-            second = ["permuted", "moved"][(v // 5 + CLASSES.index(cls)) % 2] if cls != "second_call_moved_exits" else ["permuted", "moved"][v % 2]
-            dx2 = _second_exit(rng, dx, Xt["pos"], Xt["tomo"], D, second, pres)
-            Xt2 = {"sub": dx2["subtomo_id"].to_numpy(float), "tomo": dx2["tomo_id"].to_numpy(float), "pos": gens.positions(dx2), "n": len(dx2)}
-            if not orc.boundary_clear(Et, Xt2, m, D, 1e-6):
+            kind2 = ["permuted", "moved"][(v // 5 + ci) % 2] if cls != "second_call_moved_exits" else ["permuted", "moved"][v % 2]
+            which = "entry" if (v % 10 == 8 or (cls == "second_call_moved_exits" and v % 4 == 3)) else "exit"
+            # in place: the caller's own object (DataFrame / Motl / file) is modified between the calls instead of a new one being passed
+            inplace = bool((v // 5 + ci) % 2) if cls != "second_call_moved_exits" else bool((v // 2) % 2)
+            if which == "exit":
+                t2 = _second_exit(rng, dx, Xt["pos"], Xt["tomo"], D, kind2, pres)
+                E2, X2 = Et, {"sub": t2["subtomo_id"].to_numpy(float), "tomo": t2["tomo_id"].to_numpy(float), "pos": gens.positions(t2), "n": len(t2)}
+            else:
+                t2 = _second_exit(rng, de, Et["pos"], Et["tomo"], D, kind2, pres, is_em=pres["form"] in ("em", "em_df"))
+                E2, X2 = {"sub": t2["subtomo_id"].to_numpy(float), "tomo": t2["tomo_id"].to_numpy(float), "pos": gens.positions(t2), "n": len(t2)}, Xt
+            if not orc.boundary_clear(E2, X2, m, D, None if cls == "bound_slivers" else 1e-6):
                 continue
-            cand2 = orc.candidates(Et, Xt2, m, D)
+            if m == 0.0 and bool((orc.sq_matrix(E2, X2) == 0).any()):
+                continue
+            cand2 = orc.candidates(E2, X2, m, D)
+            second = {"kind": kind2, "which": which, "inplace": inplace, "table": t2, "E": E2, "X": X2, "cand": cand2, "n_cand": int(cand2.sum())}
         _index(rng, de, pres["index_e"])
         _index(rng, dx, pres["index_x"])
         if second is not None:
-            dx2.index = dx.index
+            second["table"].index = (dx if second["which"] == "exit" else de).index
         tags = lat_tags if lat is not None else [p[3] for p in parts]
         summ = {"class": cls, "variant": v, "n": int(len(de)), "tomograms": int(len(np.unique(Et["tomo"]))), "max_distance": D, "min_distance": m,
                 "candidate_links": int(cand.sum()), "presentation": pres, "gadgets": tags,
                 "entry0": np.round(Et["pos"][0], 4).tolist(), "exit0": np.round(Xt["pos"][0], 4).tolist(), "attempt": attempt}
         case = {"i": i, "cls": cls, "entry": de, "exit": dx, "E": Et, "X": Xt, "D": D, "m": m, "pres": pres, "n_cand": int(cand.sum()),
-                "cand": cand, "summary": summ, "exit2": None}
+                "cand": cand, "summary": summ, "second": second, "plants": plants}
         if second is not None:
-            summ["second_call"] = second
-            summ["candidate_links_second_call"] = int(cand2.sum())
-            case.update({"exit2": dx2, "X2": Xt2, "cand2": cand2, "n_cand2": int(cand2.sum())})
+            summ["second_call"] = "%s sites %s%s" % (second["which"], second["kind"], ", caller's object modified in place" if second["inplace"] else ", new object")
+            summ["candidate_links_second_call"] = second["n_cand"]
         return case
     raise RuntimeError("generator could not build a case of class %s (i=%d)" % (cls, i))
 
@@ -1128,16 +1338,16 @@ def _call(ctx, case, a_entry, a_exit, label):
     return ctx.call(label, fn, a_entry, a_exit, D, mval)
 
 
-def _drive_checks(ctx, case, res, Xt, cand, n_cand, what):
+def _drive_checks(ctx, case, res, Et, Xt, cand, n_cand, what):
     """driver-side judgement of one real call against the generator's ground truth for THAT call's lists."""
     D, m = case["D"], case["m"]
     out = orc.read_output(res)
-    _judge(ctx, ["truth_chains"], case["E"], Xt, out, m, D, {"class": case["cls"], "gadgets": case["summary"]["gadgets"], "call": what})
+    _judge(ctx, ["truth_chains"], Et, Xt, out, m, D, {"class": case["cls"], "gadgets": case["summary"]["gadgets"], "call": what})
     # consequence of the link clause: two particles may be consecutive only if their exit->entry distance is a candidate
     if out is None:
         ctx.check("trivial_pairs", False, {"what": "no table", "call": what})
         return None, None, None
-    row_of = {s: k for k, s in enumerate(case["E"]["sub"].tolist())}
+    row_of = {s: k for k, s in enumerate(Et["sub"].tolist())}
     w = None
     keyed = {}
     for s, t, o, g in zip(out["sub"].tolist(), out["tomo"].tolist(), out["obj"].tolist(), out["order"].tolist()):
@@ -1157,41 +1367,86 @@ def _drive_checks(ctx, case, res, Xt, cand, n_cand, what):
     return out, keyed, row_of
 
 
+POS_COLS = ["x", "y", "z", "shift_x", "shift_y", "shift_z"]
+
+
+def _overwrite(ctx, case, obj, table):
+    """modify the caller-owned argument IN PLACE so that it holds the sites of `table` (same rows, ids, index)"""
+    if isinstance(obj, str):
+        _em_write(obj, table)                    # same path, new content
+    else:
+        df = obj if isinstance(obj, pd.DataFrame) else obj.df
+        df[POS_COLS] = table[POS_COLS].to_numpy()
+
+
+def _count(ctx, key, n=1):
+    ctx.extra[key] = ctx.extra.get(key, 0) + n
+
+
 def run_case(ctx, case):
     D, m = case["D"], case["m"]
     a_entry = _wrap(ctx, case, case["entry"], "entry")
     a_exit = _wrap(ctx, case, case["exit"], "exit")
     paths = [p for p in (a_entry, a_exit) if isinstance(p, str)]
+    if not isinstance(a_entry, str) and not isinstance(a_exit, str):
+        ie = (a_entry if isinstance(a_entry, pd.DataFrame) else a_entry.df).index
+        ix = (a_exit if isinstance(a_exit, pd.DataFrame) else a_exit.df).index
+        if not isinstance(a_entry, pd.DataFrame) and not isinstance(a_exit, pd.DataFrame) and not ie.equals(ix):
+            _count(ctx, "calls_two_Motl_objects_with_different_index_labels")
     try:
         ok, res = _call(ctx, case, a_entry, a_exit, "trace_chains")
         if ok:
-            out, keyed, row_of = _drive_checks(ctx, case, res, case["X"], case["cand"], case["n_cand"], "first call")
+            out, keyed, row_of = _drive_checks(ctx, case, res, case["E"], case["X"], case["cand"], case["n_cand"], "first call")
             if out is not None and case["cls"] == "lattice_ties":
                 d2 = orc.sq_matrix(case["E"], case["X"])
                 ex = orc.exact_pairs(case["E"], case["X"], m, D)
-                ctx.extra["lattice_pairs_exactly_at_min"] = ctx.extra.get("lattice_pairs_exactly_at_min", 0) + int((ex & (d2 == m * m)).sum())
-                ctx.extra["lattice_pairs_exactly_at_max"] = ctx.extra.get("lattice_pairs_exactly_at_max", 0) + int((ex & (d2 == D * D)).sum())
+                _count(ctx, "lattice_pairs_exactly_at_min", int((ex & (d2 == m * m)).sum()))
+                _count(ctx, "lattice_pairs_exactly_at_max", int((ex & (d2 == D * D)).sum()))
                 nmax = 0
                 for key, mem in keyed.items():
                     for (g1, s1), (g2, s2) in zip(mem[:-1], mem[1:]):
                         if s1 in row_of and s2 in row_of and d2[row_of[s1], row_of[s2]] == D * D:
                             nmax += 1
-                ctx.extra["lattice_links_exactly_at_max"] = ctx.extra.get("lattice_links_exactly_at_max", 0) + nmax
-                ctx.extra["lattice_cases_all_pairs_exact"] = ctx.extra.get("lattice_cases_all_pairs_exact", 0) + int(ex.all())
-        if case.get("exit2") is not None:
-            # history: a SECOND call in the same process, same entry list, different exit list; judged against its own inputs
-            a_exit2 = _wrap(ctx, case, case["exit2"], "exit", "2")
-            if isinstance(a_exit2, str):
-                paths.append(a_exit2)
-            ok2, res2 = _call(ctx, case, a_entry, a_exit2, "trace_chains(second call)")
-            ctx.extra["second_calls"] = ctx.extra.get("second_calls", 0) + 1
+                _count(ctx, "lattice_links_exactly_at_max", nmax)
+                _count(ctx, "lattice_cases_all_pairs_exact", int(ex.all()))
+            if out is not None and case.get("plants"):
+                # slivers: what was planted and what cryoCAT did with the admissible ones (linking them is allowed, not demanded by the property)
+                nxt = {}
+                for key, mem in keyed.items():
+                    for (g1, s1), (g2, s2) in zip(mem[:-1], mem[1:]):
+                        nxt[s1] = s2
+                sub = case["E"]["sub"]
+                for (a_, b_, kd, dl) in case["plants"]:
+                    _count(ctx, "sliver_planted_%s" % {"max+": "beyond_max", "max-": "below_max", "min-": "inside_min", "min+": "above_min"}[kd])
+                    if kd in ("max-", "min+") and nxt.get(sub[a_]) == sub[b_]:
+                        _count(ctx, "sliver_admissible_%s_linked" % {"max-": "below_max", "min+": "above_min"}[kd])
+            if out is not None and case["cls"] == "same_chain_exact_tie":
+                _count(ctx, "exact_tie_gadgets_equal", sum(1 for t_ in case["summary"]["gadgets"] if t_.startswith("tie-equal")))
+                _count(ctx, "exact_tie_gadgets_unequal_controls", sum(1 for t_ in case["summary"]["gadgets"] if t_.startswith("tie-") and not t_.startswith("tie-equal")))
+        sec = case.get("second")
+        if sec is not None:
+            # history: a SECOND call in the same process with one list changed, a THIRD with the first lists again; every call is judged
+            # against the values its arguments hold at that moment
+            orig = {"exit": case["exit"], "entry": case["entry"]}[sec["which"]]
+            if sec["inplace"]:
+                _overwrite(ctx, case, a_exit if sec["which"] == "exit" else a_entry, sec["table"])
+                b_entry, b_exit = a_entry, a_exit
+                _count(ctx, "second_calls_after_in_place_modification")
+            else:
+                other = _wrap(ctx, case, sec["table"], sec["which"], "2")
+                if isinstance(other, str):
+                    paths.append(other)
+                b_entry, b_exit = (a_entry, other) if sec["which"] == "exit" else (other, a_exit)
+            ok2, res2 = _call(ctx, case, b_entry, b_exit, "trace_chains(second call)")
+            _count(ctx, "second_calls")
             if ok2:
-                _drive_checks(ctx, case, res2, case["X2"], case["cand2"], case["n_cand2"], "second call: same entries, exits " + case["summary"]["second_call"])
-            if case["i"] % 2 == 0:
-                # and back to the first exit list: the result of an identical call must again satisfy the clauses
+                _drive_checks(ctx, case, res2, sec["E"], sec["X"], sec["cand"], sec["n_cand"], "second call: " + case["summary"]["second_call"])
+            if case["i"] % 2 == 0 or sec["inplace"]:
+                if sec["inplace"]:
+                    _overwrite(ctx, case, a_exit if sec["which"] == "exit" else a_entry, orig)
                 ok3, res3 = _call(ctx, case, a_entry, a_exit, "trace_chains(third call)")
                 if ok3:
-                    _drive_checks(ctx, case, res3, case["X"], case["cand"], case["n_cand"], "third call: first lists again")
+                    _drive_checks(ctx, case, res3, case["E"], case["X"], case["cand"], case["n_cand"], "third call: first lists again")
     finally:
         for p in paths:
             try:
